@@ -12,6 +12,16 @@ def run(ctx):
     way2 = lambda a, b: {'pred': 'reach:w-' + a + b, 'depth': 18, 'seed': {'pred': 'reach:w-' + a + '-', 'depth': 20}}
     queries += [('stuck', 14, ['bad:stranded'], way2(a, b)) for a, b in (('C', 'F'), ('C', 'C'))]
     configs = [('1x2', cfg, queries, ['c09'])]
+    # work sets (both sentences of the property with the controllers' queues in the model): a reconcile runs only when its
+    # request is pending (store events mapped as the real watchers do, Result.Requeue, retry after an error); device
+    # refusals on. bad = no request pending although re-examining a record changes the state / a transaction is not final
+    cfgw = dict(nt=1, nx=2, sync=False, rollback=False, faults=True, crash=False, work=True)
+    wbad = ['bad:c09-idle-not-fixed-point', 'bad:c09-idle-not-final']
+    dw = 22 if quick else 30
+    qw = [('reach', 28, ['reach:tx1-applied']), ('bad', dw, [wbad[0]]), ('bad', dw, [wbad[1]])]
+    wsteps = 12 if quick else 20
+    qw += [('bad', wsteps, wbad, way2(a, b)) for a, b in ((('C', 'C'),) if quick else (('C', 'C'), ('C', 'F'), ('A', 'C'), ('F', 'C')))]
+    configs.append(('1x2w', cfgw, qw, []))
     if not quick:
         # three transactions on one target: the third is committed on top of a committed(-not-applied)/failed pair, then 20 steps
         cfg3 = dict(nt=1, nx=3, sync=False, rollback=False, faults=False, crash=False)
@@ -21,6 +31,9 @@ def run(ctx):
             return {'pred': 'reach:w-%s%s%s' % (a, b, c), 'depth': 24, 'seed': s2}
         q3 = [('stuck', 20, ['bad:stranded'], way3(a, b, 'C')) for a, b in (('C', 'F'), ('C', 'C'))]
         configs.append(('1x3', cfg3, q3, []))
+        cfg3w = dict(nt=1, nx=3, sync=False, rollback=False, faults=True, crash=False, work=True)
+        q3w = [('bad', 24, wbad, way3(a, b, 'C')) for a, b in (('C', 'C'), ('C', 'F'))]
+        configs.append(('1x3w', cfg3w, q3w, []))
     proto.run(ctx, 'C09', configs,
               'BMC deadlock-freedom: no reachable state is a fixed point of every Reconcile (probe step per id) while a transaction '
               'with all targets connected is not final', {'bmc_depth': d})
